@@ -178,13 +178,15 @@ func VerifC16UserDict() {
 		if u.name != "DominantSeventh" && vf.NondetIntRange("symbol", 0, 1) == 1 {
 			u.display = "sus4" // a new chord taking over a symbol that is already in use
 		}
-		e := vf.NondetIntRange("extends", 0, k+2)
+		e := vf.NondetIntRange("extends", 0, k+3)
 		switch {
 		case e == 0:
 		case e <= k:
 			u.extends = fmt.Sprintf("User%d", e-1)
 		case e == k+1:
 			u.extends = "MinorTriad"
+		case e == k+2:
+			u.extends = "MajorNinthAlias1" // the deepest built-in chain: maj9 -> M9 -> M7 -> major triad
 		default:
 			u.extends = "NoSuchChord"
 		}
@@ -218,7 +220,7 @@ func VerifC16UserDict() {
 	// what must be refused
 	bad := false
 	defined := func(name string) bool {
-		if name == "MinorTriad" {
+		if name == "MinorTriad" || name == "MajorNinthAlias1" {
 			return true
 		}
 		for _, x := range users {
@@ -341,6 +343,8 @@ func VerifC16UserDict() {
 			x := users[j]
 			if x.extends == "MinorTriad" {
 				want = append(want, "Perfect1", "Minor3", "Perfect5")
+			} else if x.extends == "MajorNinthAlias1" {
+				want = append(want, verifBuiltinNames("MajorNinthAlias1", 0)...)
 			} else if x.extends != "" {
 				last := -1
 				for p := range users {
@@ -490,4 +494,22 @@ func VerifC12BuildOrder() {
 		vf.Assert("dictionary-independent-of-map-order", verifSameNames(ref, got))
 	}
 	vf.Reach("end")
+}
+
+// verifBuiltinNames: the attribute names of a built-in chord, parent first, read off the raw
+// definitions (the YAML data) by walking `extends` — not through Map.GetChordAttributes.
+func verifBuiltinNames(name string, depth int) []string {
+	if depth > 10 {
+		return nil
+	}
+	for _, c := range verifChords {
+		if c.Name == name {
+			var out []string
+			if c.Extends != "" {
+				out = append(out, verifBuiltinNames(c.Extends, depth+1)...)
+			}
+			return append(out, c.Attributes...)
+		}
+	}
+	return nil
 }
